@@ -340,6 +340,18 @@ func weightRoutingGraphs() []histGraph {
 			{Op: "Constant", Attrs: []Attr{{Name: "value", Type: "t", T: smallT("f32", []int{2}, 9)}}, Ins: []string{}, Outs: []string{"k"}},
 			{Op: "Squeeze", Ins: []string{"us"}, Outs: []string{"sq"}},
 		}, Outputs: []string{"am", "amx", "rm", "rn", "ex", "cc", "rs", "us", "sum", "k", "sq", "w"}}
+	// matrix products whose operands are weights at every position, transposed and not, one weight used twice
+	gm := &GraphJ{Inputs: []VInfoJ{{Name: "x", Dt: "f32", Dims: []any{"N", 3}}},
+		Inits: []InitJ{{Name: "wa", T: smallT("f32", []int{3, 3}, 4)}, {Name: "wb", T: smallT("f32", []int{2, 3}, 5)}, {Name: "wc", T: smallT("f32", []int{3}, 6)}},
+		Nodes: []NodeJ{
+			{Op: "Gemm", Attrs: []Attr{{Name: "transA", Type: "i", I: 1}}, Ins: []string{"wa", "wa", "wc"}, Outs: []string{"gram"}},
+			{Op: "Gemm", Attrs: []Attr{{Name: "transA", Type: "i", I: 1}, {Name: "transB", Type: "i", I: 1}}, Ins: []string{"wa", "x", "wc"}, Outs: []string{"g1"}},
+			{Op: "Gemm", Attrs: []Attr{{Name: "transB", Type: "i", I: 1}, {Name: "alpha", Type: "f", F: 2}, {Name: "beta", Type: "f", F: 0.5}}, Ins: []string{"x", "wb"}, Outs: []string{"g2"}},
+			{Op: "MatMul", Ins: []string{"x", "wa"}, Outs: []string{"m1"}},
+			{Op: "MatMul", Ins: []string{"wa", "wa"}, Outs: []string{"m2"}},
+			{Op: "MatMul", Ins: []string{"wb", "wc"}, Outs: []string{"m3"}},
+		}, Outputs: []string{"gram", "g1", "g2", "m1", "m2", "m3", "wa"}}
+	out = append(out, histGraph{"matrix-products", gm, []NamedT{{"x", smallT("f32", []int{3, 3}, 7)}}, []NamedT{{"x", smallT("f32", []int{3, 2}, 7)}}, nil})
 	out = append(out, histGraph{"reductions-passthrough", gw, []NamedT{{"x", smallT("f32", []int{2, 3}, 7)}}, []NamedT{{"x", smallT("f32", []int{3, 3}, 7)}}, nil})
 	return out
 }
